@@ -10,6 +10,7 @@ ap.add_argument('-w', type=int, default=6)
 ap.add_argument('-gsm7-every', type=int, default=5)
 ap.add_argument('-only', default='')
 ap.add_argument('-limit', type=int, default=0)
+ap.add_argument('-append', action='store_true')
 ap.add_argument('-out', default='/verif/selftest/mutation/results.tsv')
 a = ap.parse_args()
 env = dict(os.environ, GOFLAGS='-mod=mod', GOPROXY='off', GOSUMDB='off', GOTOOLCHAIN='local')
@@ -19,7 +20,7 @@ shutil.rmtree(base, ignore_errors=True); os.makedirs(base)
 muts = [json.loads(l) for l in subprocess.run(['/verif/bin/mutate', '/repo'], capture_output=True, text=True).stdout.splitlines()]
 sel = []; g = 0
 for m in muts:
-    if a.only and a.only not in m['file']: continue
+    if a.only and not any(o in m['file'] for o in a.only.split(',')): continue
     if m['file'].endswith('gsm7encoding/gsm7.go'):
         g += 1
         if g % a.gsm7_every: continue
@@ -30,8 +31,9 @@ print('mutants selected:', len(sel), 'of', len(muts), flush=True)
 q = queue.Queue()
 for m in sel: q.put(m)
 lock = threading.Lock()
-out = open(a.out, 'w')
-out.write('id\tfile:line\tfunc\top\told -> new\tverdict\tdetail\n')
+out = open(a.out, 'a' if a.append else 'w')
+if not a.append:
+    out.write('id\tfile:line\tfunc\top\told -> new\tverdict\tdetail\n')
 def worker(w):
     repo = f'{base}/w{w}'; root = f'{base}/root{w}'
     shutil.copytree('/repo', repo, ignore=shutil.ignore_patterns('.git'))
